@@ -100,7 +100,7 @@ class HashesFieldsDetectionItemTransformation(DetectionItemTransformation):
                     f"No valid hash algorithm found in Hashes field. Please use one of the following: {', '.join(self.valid_hash_algos)}"
                 )
 
-            return self._create_new_detection_items(algo_dict)
+            return self._create_new_detection_items(algo_dict, detection_item)
         else:
             return None
 
@@ -169,27 +169,41 @@ class HashesFieldsDetectionItemTransformation(DetectionItemTransformation):
         """
         return f"{self.field_prefix}{'' if self.drop_algo_prefix else hash_algo}"
 
-    def _create_new_detection_items(self, algo_dict: dict[str, list[str]]) -> SigmaDetection:
+    def _create_new_detection_items(
+        self,
+        algo_dict: dict[str, list[str]],
+        detection_item: SigmaDetectionItem | None = None,
+    ) -> SigmaDetection:
         """
         Creates new detection items based on the parsed hash values.
 
         Args:
             algo_dict (dict[str, list[str]]): A dictionary mapping field names to lists of hash values.
+            detection_item: the transformed detection item; its value linking (all modifier) and its
+                negation (neq modifier) are carried over to the new items.
 
         Returns:
             SigmaDetection: A new SigmaDetection object containing the created detection items.
         """
+        value_linking = detection_item.value_linking if detection_item is not None else ConditionOR
+        negated = detection_item.negated if detection_item is not None else False
+        if negated:  # not (a or b) = not a and not b
+            item_linking = ConditionAND if value_linking is ConditionOR else ConditionOR
+        else:
+            item_linking = value_linking
         return SigmaDetection(
             detection_items=[
                 SigmaDetectionItem(
                     field=k if k != "keyword" else None,
                     modifiers=[],
                     value=[SigmaString(x) for x in v],
+                    value_linking=value_linking,
+                    negated=negated,
                 )
                 for k, v in algo_dict.items()
                 if k
             ],
-            item_linking=ConditionOR,
+            item_linking=item_linking,
         )
 
 
